@@ -138,6 +138,11 @@ def r4_budget_untouched(ctx):
             if s.name in ('tokio::task::spawn_blocking', 'tokio::task::block_in_place'):
                 bad.append(s)
     ctx.floor('tokio runtime builder calls', n, 4)
+    # des' own leaf futures (timers, channels) do not charge tokio's cooperative budget: a task that awaits elapsed des timers would be
+    # cut off after 128 of them and left runnable when the harness turn ends
+    coop = [s for f in P.fn_list if f.key.startswith(('des::', '<des::')) for s in f.calls()
+            if s.name.startswith('tokio::task::coop::') or s.name.split('::')[-1] in ('consume_budget', 'poll_proceed')]
+    ctx.check(not coop, 'budget-charged-by-des-future', 'no future of des charges the cooperative task budget', coop[0].where() if coop else None, [s.name for s in coop][:3])
     ctx.check(not bad, 'budget-config', 'des neither lowers the scheduler\'s per-tick budget nor moves tasks off the simulation thread', bad[0].where() if bad else None, [s.name for s in bad])
 
 
